@@ -176,10 +176,12 @@ def tier_params(tier):
     if tier == "quick":
         return {"K": 3, "G": 96, "mapk_cases": 40, "mapk_per": 50, "rand_cases": 7000, "rand_per": 96,
                 "ov_cases": 320, "ov_per": 10, "ov_nested": 6, "ov_sched": 8,
-                "ov_sweep_cfgs": 1, "ov_sweep_max": 120}
+                "ov_sweep_cfgs": 1, "ov_sweep_max": 120,
+                "tw_alpha": [(2, 48), (3, 16)], "tw_G": 256, "tw_rand_cases": 600, "tw_rand_per": 96}
     return {"K": 4, "G": 1024, "mapk_cases": 280, "mapk_per": 100, "rand_cases": 20000, "rand_per": 512,
             "ov_cases": 1000, "ov_per": 20, "ov_nested": 8, "ov_sched": 12,
-            "ov_sweep_cfgs": 3, "ov_sweep_max": 250}
+            "ov_sweep_cfgs": 3, "ov_sweep_max": 250,
+            "tw_alpha": [(2, 48), (3, 48), (4, 16)], "tw_G": 4096, "tw_rand_cases": 2000, "tw_rand_per": 256}
 
 
 def n_sweep_cases(tp):
@@ -190,9 +192,10 @@ def n_sweep_cases(tp):
 def plan(tier):
     tp = tier_params(tier)
     ns, total = n_sweep_cases(tp)
+    ntw, total_tw = n_twin_sweep_cases(tp)
     quick = tier == "quick"
     return {
-        "cases": ns + tp["mapk_cases"] + tp["rand_cases"] + tp["ov_cases"],
+        "cases": ns + tp["mapk_cases"] + tp["rand_cases"] + ntw + tp["tw_rand_cases"] + tp["ov_cases"],
         "shards": 8 if quick else 14,
         "min_nontrivial": 1500,
         "timeout": 600 if quick else 2400,
@@ -214,6 +217,16 @@ def plan(tier):
             "overlap_runs_judged": 10000, "overlap_thread_schedules": 3000, "overlap_thread_schedules_interleaved": 2000,
             "overlap_reentrant_groups_nested_run_started": 1000, "overlap_groups_complete_run_beside_failed_run": 1000,
             "overlap_statement_sweep_schedules": 2500, "overlap_statement_sweeps_complete": 30,
+            "overlap_runs_judged_on_cascade_with_shared_stage_names": 2000,
+            # twin stages: equal names / one stage object at two positions / callables shared between stages
+            "twin_sweep_pipelines": total_tw,               # that product too was enumerated completely
+            "twin_runs": 50000, "twin_runs_reported_success": 1000,
+            "twin_pipelines_shared_names": 20000, "twin_pipelines_same_stage_object_twice": 8000,
+            "twin_pipelines_shared_callables": 8000,
+            "twin_shared_callable_invocations": 50000, "twin_invocations_attributed_in_pipeline_order": 50000,
+            "twin_runs_completed_twin_beside_uncompleted_twin": 5000,
+            "twin_runs_all_stages_reached_one_twin_failed": 1000,
+            "mapk_runs_with_duplicate_tier_name": 100,
         },
     }
 
@@ -275,9 +288,12 @@ def render_result(res):
         return "unrenderable result: %r" % (e,)
 
 
-def judge(ctx, acc, meta, halt, maxamp, inp, log, res, describe, layer, msuf=""):
-    """meta: list of (name, has_checkpoint, has_handler, required, factor). Returns the per-stage states.
-    `msuf` is appended to every mechanism key (input class of the layer, e.g. ':overlapping-runs')."""
+def judge(ctx, acc, meta, halt, maxamp, inp, log, res, describe, layer, msuf="", partial=False):
+    """meta: list of (name, has_checkpoint, has_handler, required, factor), one entry per pipeline POSITION (names are
+    labels and may repeat). Returns the per-stage states.
+    `msuf` is appended to every mechanism key (input class of the layer, e.g. ':overlapping-runs').
+    `partial`: `log` is only a prefix of the run's invocations (the rest could not be attributed to positions): only the
+    per-invocation rules (gate rule, halting rule) are judged, the result is not."""
     n = len(meta)
 
     def violation(mech, what, w):
@@ -406,6 +422,9 @@ def judge(ctx, acc, meta, halt, maxamp, inp, log, res, describe, layer, msuf="")
             _seen_fp.add(fp)
             ctx.nontrivial(fp)
 
+    if partial:
+        acc["runs_judged_on_attributed_prefix_only"] = acc.get("runs_judged_on_attributed_prefix_only", 0) + 1
+        return state
     if res is None:
         acc["run_raised"] = acc.get("run_raised", 0) + 1
         return state
@@ -446,10 +465,12 @@ def judge(ctx, acc, meta, halt, maxamp, inp, log, res, describe, layer, msuf="")
 
     # stage_results labels are outside the statement: mismatches are only counted, never judged
     try:
-        byname = {m[0]: i for i, m in enumerate(meta)}
+        byname = {}
+        for i, m in enumerate(meta):
+            byname.setdefault(m[0], []).append(i)
         for r in res.stage_results:
-            i = byname.get(r.stage_name)
-            if i is not None and r.status.name == "COMPLETED" and state[i] not in (DONE, RECOVERED):
+            ii = byname.get(r.stage_name)
+            if ii is not None and len(ii) == 1 and r.status.name == "COMPLETED" and state[ii[0]] not in (DONE, RECOVERED):
                 acc["unjudged_stage_label_mismatch"] = acc.get("unjudged_stage_label_mismatch", 0) + 1
     except Exception:
         acc["unjudged_stage_results_unreadable"] = acc.get("unjudged_stage_results_unreadable", 0) + 1
@@ -636,7 +657,8 @@ def wrap_stages(casc):
 
 
 MAPK_VARIANTS = ["plain", "plain", "remove-MAPKK", "remove-MAPKKK", "insert-inhibitor", "insert-scrambler",
-                 "insert-tier-changer", "optional-MAPKK", "append-failing-stage"]
+                 "insert-tier-changer", "optional-MAPKK", "append-failing-stage", "append-failing-stage-named-like-a-tier",
+                 "second-stage-named-like-a-tier"]
 
 
 def mapk_input(rng):
@@ -676,6 +698,17 @@ def case_mapk(ctx, n, tp):
             casc.add_stage(CascadeStage(name="effector", processor=lambda x: 1 // 0, amplification=3.0,
                                         on_error=(None if rng.random() < 0.5 else (lambda e: {"recovered": True})),
                                         checkpoint=lambda x: x.get("response") == "ACTIVATED"))
+        elif variant == "append-failing-stage-named-like-a-tier":
+            casc.add_stage(CascadeStage(name=rng.choice(["MAPKKK", "MAPKK", "MAPK"]), processor=lambda x: 1 // 0,
+                                        required=rng.random() < 0.5))
+        elif variant == "second-stage-named-like-a-tier":
+            # a further stage carrying the name of an existing tier (a distinct stage object): working or failing
+            proc = rng.choice([lambda x: dict(x), lambda x: x["missing-key"], lambda x: x])
+            casc.insert_stage(rng.randrange(1, 4), CascadeStage(name=rng.choice(["MAPKKK", "MAPKK", "MAPK"]), processor=proc,
+                                                                required=rng.random() < 0.5,
+                                                                amplification=rng.choice([1.0, 2.0])))
+        if len({st.name for st in casc._stages}) < len(casc._stages):
+            acc["mapk_runs_with_duplicate_tier_name"] = acc.get("mapk_runs_with_duplicate_tier_name", 0) + 1
         meta = wrap_stages(casc)
         LOG = log = []
         CUR_INPUT = inp
@@ -707,6 +740,328 @@ def case_mapk(ctx, n, tp):
             _sampled.add("mapk")
             ctx.sample({"layer": "mapk", "pipeline": describe(), "input": repr(inp), "invocation_log": render_log(log),
                         "result": render_result(res)}, cap=3)
+    flush(ctx, acc)
+
+
+# ---------------------------------------------------------------------------- twin stages: equal-but-distinct configuration
+# Stage names are free-form labels (add_stage enforces nothing), the same CascadeStage object may sit at two positions
+# of a pipeline, and one callable may serve as checkpoint / processor / handler of several stages. "Every stage" in the
+# statement is every POSITION of the pipeline. The stubs of this layer therefore never know "their" stage: a stub is one
+# of a pool of callables (C#q / P#q / H#q); the pipeline binds pool callables to positions, and every invocation is
+# attributed to a position at call time:
+#   * a callable bound at exactly one position -> that position (exact);
+#   * a callable bound at several positions    -> the position whose turn it is in pipeline order (a tracker follows the
+#     invocations seen so far: stages are consulted in order, checkpoint first, then processor, then on_error), provided
+#     that position does carry this callable in this role; otherwise the invocation cannot be attributed: the run is then
+#     judged on the attributed prefix of its log only (gate and halting rules), its result is not judged (counted).
+# The behaviour of an invocation is scripted per POSITION (looked up after attribution), so one shared callable passes at
+# one position and rejects / raises at another.
+TW_MODES = ["names-only", "same-stage-object", "same-callables", "same-callables-unique-names"]
+TW_PARTS = {2: [[0, 0]],
+            3: [[0, 0, 0], [0, 0, 1], [0, 1, 0], [0, 1, 1]],
+            4: [[0, 0, 0, 0], [0, 0, 1, 1], [0, 1, 0, 1], [0, 1, 1, 0], [0, 0, 0, 1], [0, 1, 2, 0], [0, 1, 1, 2]]}
+# reduced alphabet (cp, proc, handler) x required, indices into DEC's component spaces
+_RED8 = [(0, 0, 0), (1, 0, 0), (2, 0, 0), (3, 0, 0), (0, 1, 0), (0, 1, 1), (1, 1, 2), (1, 1, 1)]
+ALPHA = {48: DEC, 16: [(c, p_, h, req) for req in (True, False) for (c, p_, h) in _RED8]}
+TW = None        # tracker of the run in progress (this layer is single-threaded)
+
+
+class Tracker:
+    __slots__ = ("bind", "script", "has_cp", "has_hd", "k", "log", "inp", "pos", "phase", "cur", "ambiguous_at",
+                 "by_tracker", "shared_calls")
+
+    def __init__(self, bind, script, has_cp, has_hd, inp):
+        self.bind, self.script, self.has_cp, self.has_hd = bind, script, has_cp, has_hd
+        self.k = len(script)
+        self.log = []
+        self.inp = inp
+        self.pos, self.phase, self.cur = 0, 0, -1     # phase 0: a stage begins; 1: gate passed; 2: processor raised
+        self.ambiguous_at = None
+        self.by_tracker = 0
+        self.shared_calls = 0
+
+    def attribute(self, role, q):
+        cands = self.bind[role][q]
+        if len(cands) == 1:
+            return cands[0]
+        self.shared_calls += 1
+        if self.phase == 0:
+            exp = (self.pos, 'c' if (self.pos < self.k and self.has_cp[self.pos]) else 'p') if self.pos < self.k else None
+        elif self.phase == 1:
+            exp = (self.cur, 'p')
+        else:
+            exp = (self.cur, 'h')
+        if exp is not None and exp[1] == role and exp[0] in cands:
+            self.by_tracker += 1
+            return exp[0]
+        if self.ambiguous_at is None:
+            self.ambiguous_at = len(self.log)
+        for j in cands:
+            if j >= self.pos:
+                return j
+        return cands[-1]
+
+    def advance(self, j, role, oc):
+        if role == 'c':
+            if oc is True:
+                self.phase, self.cur = 1, j
+            else:
+                self.phase, self.pos = 0, j + 1
+        elif role == 'p':
+            if oc == 'ret' or not self.has_hd[j]:
+                self.phase, self.pos = 0, j + 1
+            else:
+                self.phase, self.cur = 2, j
+        else:
+            self.phase, self.pos = 0, j + 1
+
+
+def _mk_tw_stubs(q):
+    def cp(s):
+        t = TW
+        j = t.attribute('c', q)
+        b = t.script[j][0]
+        if b == 3:
+            t.log.append((j, 'c', s, 'raise', None))
+            t.advance(j, 'c', 'raise')
+            raise Boom("checkpoint C#%d raised at position %d" % (q, j))
+        r = (b == 1) or (b == 4 and s is t.inp)
+        t.log.append((j, 'c', s, r, None))
+        t.advance(j, 'c', r)
+        return r
+
+    def pr(s):
+        t = TW
+        j = t.attribute('p', q)
+        b = t.script[j][1]
+        if b == 1:
+            t.log.append((j, 'p', s, 'raise', None))
+            t.advance(j, 'p', 'raise')
+            raise Boom("processor P#%d raised at position %d" % (q, j))
+        o = Sig("p%d" % j) if b == 0 else s if b == 2 else None
+        t.log.append((j, 'p', s, 'ret', o))
+        t.advance(j, 'p', 'ret')
+        return o
+
+    def hd(e):
+        t = TW
+        j = t.attribute('h', q)
+        b = t.script[j][2]
+        if b == 2:
+            t.log.append((j, 'h', e, 'raise', None))
+            t.advance(j, 'h', 'raise')
+            raise Boom("handler H#%d raised at position %d" % (q, j))
+        o = Sig("h%d" % j) if b == 1 else None
+        t.log.append((j, 'h', e, 'ret', o))
+        t.advance(j, 'h', 'ret')
+        return o
+
+    return cp, pr, hd
+
+
+TW_STUBS = [_mk_tw_stubs(q) for q in range(5)]
+TW_CP = ["-", "pass", "reject", "raise", "pass-only-for-pipeline-input"]
+TW_PR = ["pass", "raise", "identity", "returns-None"]
+TW_HD = ["-", "recover", "raise", "recover-with-None"]
+
+
+def run_twins(ctx, acc, spec, halt, maxamp, layer, runs=1):
+    """spec: per pipeline position (name, object key, C#, P#, H#, has_checkpoint, has_handler, required, factor,
+    (checkpoint, processor, handler) behaviour AT THIS POSITION). Positions with the same object key hold the very same
+    CascadeStage object (their name / callables / flags / factor are then equal by construction)."""
+    global TW
+    from operon_ai.topology.cascade import Cascade, CascadeStage
+    casc = Cascade("c19-twins", max_amplification=maxamp, halt_on_failure=halt, silent=True)
+    objs = {}
+    meta = []
+    bind = {'c': {}, 'p': {}, 'h': {}}
+    for j, (nm, ok, cq, pq, hq, has_cp, has_hd, req, f, _b) in enumerate(spec):
+        st = objs.get(ok)
+        if st is None:
+            cps, prs, hds = TW_STUBS[cq][0], TW_STUBS[pq][1], TW_STUBS[hq][2]
+            # a fresh str object per stage object: twins carry equal, not identical, names
+            st = objs[ok] = CascadeStage(name="".join(list(nm)), processor=prs, amplification=f,
+                                         checkpoint=cps if has_cp else None, on_error=hds if has_hd else None,
+                                         required=req)
+        casc.add_stage(st)
+        meta.append((nm, has_cp, has_hd, req, f))
+        bind['p'].setdefault(pq, []).append(j)
+        if has_cp:
+            bind['c'].setdefault(cq, []).append(j)
+        if has_hd:
+            bind['h'].setdefault(hq, []).append(j)
+    script = [x[9] for x in spec]
+    has_cp = [x[5] for x in spec]
+    has_hd = [x[6] for x in spec]
+
+    def describe():
+        return {"halt_on_failure": halt, "max_amplification": maxamp,
+                "stages": [{"position": j, "name": x[0], "stage_object": "stage-object-%s" % (x[1],),
+                            "checkpoint": ("C#%d %s" % (x[2], TW_CP[x[9][0]])) if x[5] else "-",
+                            "processor": "P#%d %s" % (x[3], TW_PR[x[9][1]]),
+                            "on_error": ("H#%d %s" % (x[4], TW_HD[x[9][2]])) if x[6] else "-",
+                            "required": x[7], "amplification": x[8]} for j, x in enumerate(spec)]}
+    state = res = None
+    for r in range(runs):
+        inp = Sig("in%d" % r)
+        TW = t = Tracker(bind, script, has_cp, has_hd, inp)
+        try:
+            res = casc.run(inp)
+        except Exception:
+            res = None
+        finally:
+            TW = None
+        acc["twin_runs"] = acc.get("twin_runs", 0) + 1
+        if t.shared_calls:
+            acc["twin_shared_callable_invocations"] = acc.get("twin_shared_callable_invocations", 0) + t.shared_calls
+            acc["twin_invocations_attributed_in_pipeline_order"] = \
+                acc.get("twin_invocations_attributed_in_pipeline_order", 0) + t.by_tracker
+        if t.ambiguous_at is not None:
+            acc["twin_runs_with_unattributable_invocation"] = acc.get("twin_runs_with_unattributable_invocation", 0) + 1
+            state = judge(ctx, acc, meta, halt, maxamp, inp, t.log[:t.ambiguous_at], res, describe, layer,
+                          msuf=":twin-stages", partial=True)
+            continue
+        state = judge(ctx, acc, meta, halt, maxamp, inp, t.log, res, describe, layer, msuf=":twin-stages")
+        if res is not None and res.success:
+            acc["twin_runs_reported_success"] = acc.get("twin_runs_reported_success", 0) + 1
+        # the class of situation this layer exists for: of several stages with one name, one completed and another did not
+        byname = {}
+        for j, x in enumerate(spec):
+            byname.setdefault(x[0], []).append(state[j])
+        mixed = [v for v in byname.values() if len(v) > 1 and any(s_ in (DONE, RECOVERED) for s_ in v)
+                 and any(s_ in (FAILED, BLOCKED, GATE_RAISED) for s_ in v)]
+        if mixed:
+            acc["twin_runs_completed_twin_beside_uncompleted_twin"] = \
+                acc.get("twin_runs_completed_twin_beside_uncompleted_twin", 0) + 1
+            if NOT_REACHED not in state and all(s_ in (DONE, RECOVERED) or (s_ == FAILED) for s_ in state):
+                acc["twin_runs_all_stages_reached_one_twin_failed"] = \
+                    acc.get("twin_runs_all_stages_reached_one_twin_failed", 0) + 1
+    return state, res, describe
+
+
+def tw_spec(k, part, mode, codes, factors):
+    """(partition of positions, sharing mode, behaviour code per position) -> run_twins spec"""
+    leader = {}
+    spec = []
+    for j in range(k):
+        c = part[j]
+        l = leader.setdefault(c, j)
+        cp, pr, hd, req = codes[j]
+        if mode == 0:      # equal names; distinct stage objects, distinct callables
+            spec.append(("n%d" % c, j, j, j, j, cp != 0, hd != 0, req, factors[j], (cp, pr, hd)))
+        elif mode == 1:    # the very same CascadeStage object at every position of the class
+            lcp, _lpr, lhd, lreq = codes[l]
+            spec.append(("n%d" % c, l, l, l, l, lcp != 0, lhd != 0, lreq, factors[l],
+                         (cp or 1, pr, hd or 1)))
+        else:              # distinct stage objects sharing their callables (mode 2: and the name; mode 3: names unique)
+            spec.append((("n%d" % c) if mode == 2 else ("u%d" % j), j, l, l, l, cp != 0, hd != 0, req, factors[j],
+                         (cp, pr, hd)))
+    return spec
+
+
+def tw_layers(tp):
+    """[(k, alphabet, number of pipelines)] of the complete twin sweep"""
+    out = []
+    for k, a in tp["tw_alpha"]:
+        out.append((k, a, len(TW_PARTS[k]) * len(TW_MODES) * 2 * a ** k))
+    return out
+
+
+def tw_decode(idx, tp):
+    for k, a, size in tw_layers(tp):
+        if idx < size:
+            halt = bool(idx % 2)
+            idx //= 2
+            mode = idx % len(TW_MODES)
+            idx //= len(TW_MODES)
+            part = TW_PARTS[k][idx % len(TW_PARTS[k])]
+            idx //= len(TW_PARTS[k])
+            codes = []
+            for _ in range(k):
+                codes.append(ALPHA[a][idx % a])
+                idx //= a
+            return k, part, mode, halt, codes
+        idx -= size
+    raise IndexError(idx)
+
+
+def n_twin_sweep_cases(tp):
+    total = sum(x[2] for x in tw_layers(tp))
+    return (total + tp["tw_G"] - 1) // tp["tw_G"], total
+
+
+def _tw_count_modes(acc, spec):
+    if len({x[1] for x in spec}) < len(spec):
+        acc["twin_pipelines_same_stage_object_twice"] = acc.get("twin_pipelines_same_stage_object_twice", 0) + 1
+    elif len({x[3] for x in spec}) < len(spec):
+        acc["twin_pipelines_shared_callables"] = acc.get("twin_pipelines_shared_callables", 0) + 1
+    if len({x[0] for x in spec}) < len(spec):
+        acc["twin_pipelines_shared_names"] = acc.get("twin_pipelines_shared_names", 0) + 1
+
+
+def case_twin_sweep(ctx, n, tp):
+    G = tp["tw_G"]
+    _, total = n_twin_sweep_cases(tp)
+    rng = ctx.rng(n)
+    acc = {}
+    lo, hi = n * G, min(total, (n + 1) * G)
+    for idx in range(lo, hi):
+        k, part, mode, halt, codes = tw_decode(idx, tp)
+        factors = [rng.choice(FACTORS) for _ in range(k)]
+        maxamp = rng.choice(MAXAMPS)
+        spec = tw_spec(k, part, mode, codes, factors)
+        _tw_count_modes(acc, spec)
+        state, res, describe = run_twins(ctx, acc, spec, halt, maxamp, "twin-sweep")
+        if "twin-sweep" not in _sampled and mode == 1 and DONE in state and FAILED in state and n >= ctx.nshards:
+            _sampled.add("twin-sweep")
+            ctx.sample({"layer": "twin-sweep", "pipeline": describe(), "result": render_result(res)}, cap=6)
+    acc["twin_sweep_pipelines"] = hi - lo
+    flush(ctx, acc)
+
+
+def case_twin_random(ctx, n, tp):
+    rng = ctx.rng(n)
+    acc = {}
+    for _ in range(tp["tw_rand_per"]):
+        k = rng.choice([2, 3, 3, 4, 4, 4, 5, 5, 5, 5])
+        m = rng.randint(1, max(1, k - 1))
+        labels = [rng.randrange(m) for _ in range(k)]
+        empty = rng.random() < 0.15           # one of the shared names is the empty string
+        names = [("" if (empty and c == 0) else "n%d" % c) for c in labels]
+        style = rng.randrange(5)
+        # 0: equal names only; 1: twins are one stage object; 2: twins share callables; 3: ONE callable per role for the
+        # whole pipeline (names as drawn); 4: every role draws its callable from a small pool independently
+        halt = rng.random() < 0.5
+        maxamp = rng.choice(MAXAMPS_X)
+        leader = {}
+        spec = []
+        for j in range(k):
+            c = labels[j]
+            l = leader.setdefault(c, j)
+            cp = rng.choice([0, 1, 1, 1, 1, 2, 3, 4])
+            pr = rng.choice([0, 0, 0, 0, 1, 1, 2, 3])
+            hd = rng.choice([0, 0, 1, 1, 2, 3])
+            req = rng.random() < 0.5
+            f = rng.choice(FACTORS_X)
+            if style == 1 and l != j:
+                x = spec[l]
+                spec.append((names[j], l, l, l, l, x[5], x[6], x[7], x[8], (cp or 1, pr, hd or 1)))
+                continue
+            if style == 0:
+                cq = pq = hq = j
+            elif style == 1 or style == 2:
+                cq = pq = hq = l
+            elif style == 3:
+                cq = pq = hq = 0
+            else:
+                cq, pq, hq = rng.randrange(2), rng.randrange(2), rng.randrange(2)
+            spec.append((names[j], j, cq, pq, hq, cp != 0, hd != 0, req, f, (cp, pr, hd)))
+        _tw_count_modes(acc, spec)
+        state, res, describe = run_twins(ctx, acc, spec, halt, maxamp, "twin-random", runs=2)
+        acc["twin_random_pipelines"] = acc.get("twin_random_pipelines", 0) + 1
+        if "twin-random" not in _sampled and k >= 4 and style == 3 and state is not None and state[k - 1] != NOT_REACHED:
+            _sampled.add("twin-random")
+            ctx.sample({"layer": "twin-random", "pipeline": describe(), "result": render_result(res)}, cap=6)
     flush(ctx, acc)
 
 
@@ -834,13 +1189,14 @@ OV_STUBS = [_mk_ov_stubs(i) for i in range(5)]
 
 
 def _ov_stage_complete(sr):
-    # a notification callback of the cascade: never judged, only one more place from which a run can be re-entered
-    try:
-        i = int(sr.stage_name[1:])
-    except Exception:
-        return
-    if 0 <= i < 5 and getattr(_TLS, "stack", None):
-        _ov_enter(i, 's')
+    # a notification callback of the cascade: never judged, only one more place from which a run can be re-entered.
+    # Stage names may repeat, so the stage is identified by position: the notification follows the processor call that
+    # this thread's innermost run logged last.
+    st = getattr(_TLS, "stack", None)
+    if st and st[-1].log:
+        i, role = st[-1].log[-1][0], st[-1].log[-1][1]
+        if role == 'p':
+            _ov_enter(i, 's')
 
 
 class CallbackPolicy:
@@ -931,13 +1287,18 @@ def case_overlap(ctx, n, tp):
                        on_stage_complete=_ov_stage_complete if notify else None)
         casc._lock = locks.DetectingLock(sched.SchedLock(casc._lock, "Cascade._lock"), "Cascade._lock")
         meta = []
+        # stage names are labels: in a third of the configurations several stages carry the same one
+        pool = rng.randint(1, max(1, k - 1)) if rng.random() < 0.35 else 0
+        names = [("s%d" % rng.randrange(pool)) if pool else ("s%d" % i) for i in range(k)]
+        shared_names = len(set(names)) < k
         for i in range(k):
             has_cp, has_hd, req = rng.random() < 0.5, rng.random() < 0.4, rng.random() < 0.6
             f = rng.choice(FACTORS_X)
             cp_, pr_, hd_ = OV_STUBS[i]
-            casc.add_stage(CascadeStage(name="s%d" % i, processor=pr_, amplification=f, checkpoint=cp_ if has_cp else None,
+            casc.add_stage(CascadeStage(name="".join(list(names[i])), processor=pr_, amplification=f,
+                                        checkpoint=cp_ if has_cp else None,
                                         on_error=hd_ if has_hd else None, required=req))
-            meta.append(("s%d" % i, has_cp, has_hd, req, f))
+            meta.append((names[i], has_cp, has_hd, req, f))
         base = _ov_script(rng, k)
         serial = [0]
 
@@ -982,6 +1343,8 @@ def case_overlap(ctx, n, tp):
                 state = judge(ctx, acc, meta, halt, maxamp, r.inp, r.log, r.res, describe, "overlap-" + mode,
                               msuf=":overlapping-runs")
                 bump("overlap_runs_judged")
+                if shared_names:
+                    bump("overlap_runs_judged_on_cascade_with_shared_stage_names")
                 if all(s_ in (DONE, RECOVERED) for s_ in state):
                     complete += 1
                 elif any(s_ in (FAILED, BLOCKED, GATE_RAISED) for s_ in state):
@@ -1089,6 +1452,12 @@ def run_case(ctx, n):
         return case_mapk(ctx, n, tp)
     if n2 < tp["mapk_cases"] + tp["rand_cases"]:
         return case_random(ctx, n, tp)
+    n3 = n2 - tp["mapk_cases"] - tp["rand_cases"]
+    ntw, _ = n_twin_sweep_cases(tp)
+    if n3 < ntw:
+        return case_twin_sweep(ctx, n3, tp)
+    if n3 < ntw + tp["tw_rand_cases"]:
+        return case_twin_random(ctx, n, tp)
     # last block on purpose: the statement-level scheduler hook on the Cascade class is installed only from here on
     return case_overlap(ctx, n, tp)
 
